@@ -201,14 +201,32 @@ def int_rank(rows):
 
 
 # ----------------------------------------------------------------------------- process plumbing
-def run_impl(ctx, exe, lines, timeout=600):
+NOTRUN = "NOTRUN"
+
+
+def run_impl(ctx, exe, lines, timeout=None):
     """lines: harness input lines. Returns a list of dicts {rows: {tag: [words]}, multi: [...], exc, bad,
-    crashed, sanitizer} aligned with lines (a crash is attributed to the case that was running)."""
+    crashed, sanitizer} aligned with lines (a crash is attributed to the case that was running).
+    Hangs: a batch normally takes a few seconds; the first timeout of a run costs `timeout`, the next two 20 s
+    each, after three hung cases the remaining cases of the run are not executed (marked NOTRUN, dropped by
+    the violation wrapper) — a library that hangs yields three concrete hanging inputs in bounded time."""
+    if timeout is None:
+        timeout = 90 if ctx.quick else 900
     results = [None] * len(lines)
     start = 0
     while start < len(lines):
-        r = ctx.run(exe, "\n".join(lines[start:]) + "\n", timeout=timeout,
+        hangs = getattr(ctx, "_c11_hangs", 0)
+        if hangs >= 3:
+            for i in range(start, len(lines)):
+                if results[i] is None or not results[i]["ended"]:
+                    results[i] = {"rows": {}, "seq": [], "exc": None, "bad": False, "crashed": True,
+                                  "sanitizer": NOTRUN + " (the harness hung on three earlier cases)",
+                                  "ended": False}
+            break
+        r = ctx.run(exe, "\n".join(lines[start:]) + "\n", timeout=timeout if not hangs else min(timeout, 20),
                     env={"OMP_NUM_THREADS": "2", "OMP_WAIT_POLICY": "passive"})
+        if r.timed_out:
+            ctx._c11_hangs = hangs + 1
         cur = None
         for line in r.out.splitlines():
             if line.startswith("C "):
@@ -852,9 +870,20 @@ def eval_T(ctx, exe, mexe, cases, st):
             if [v.hex() for v in rows["TRI"]] != [v.hex() for v in rows["EMB"]]:
                 ctx.mismatch(jsonable(c), "embed() does not return what triangulate() returned")
                 continue
-        # exact stream: D2, mu, B
+        # exact stream: D2, mu, B (model vs implementation); between D2 and mu the spec for mu on the
+        # implementation's own output: mean over the landmarks of the squared distances
         ok_exact = True
-        for tag in ("D2", "MU", "B"):
+        for tag in ("D2", "MUSPEC", "MU", "B"):
+            if tag == "MUSPEC":
+                if c["kind"] != "asym" and finite(rows["MU"]):
+                    want_mu = [Fraction(sum(c["dist"][c["lm"][s]][c["lm"][t]] ** 2 for s in range(L)), L)
+                               for t in range(L)]
+                    if [Fraction(v) for v in rows["MU"]] != want_mu:
+                        ctx.violation(jsonable(c), "landmark_distances_squared %s is not the mean squared landmark "
+                                      "distance %s" % (rows["MU"][:4], [float(v) for v in want_mu[:4]]))
+                        ok_exact = False
+                        break
+                continue
             if not finite(rows[tag]):
                 ctx.violation(jsonable(c), "non-finite %s on an integer metric" % tag)
                 ok_exact = False
@@ -869,13 +898,6 @@ def eval_T(ctx, exe, mexe, cases, st):
                 break
         if not ok_exact:
             continue
-        # spec for mu on the implementation's output: mean over the landmarks of squared distances
-        if c["kind"] != "asym":
-            want_mu = [Fraction(sum(c["dist"][c["lm"][s]][c["lm"][t]] ** 2 for s in range(L)), L)
-                       for t in range(L)]
-            if [Fraction(v) for v in rows["MU"]] != want_mu:
-                ctx.violation(jsonable(c), "landmark_distances_squared is not the mean squared landmark distance")
-                continue
         if c["kind"] == "asym":
             st.nontrivial(["Tasym", c["mode"], c["lm"], c["dist"], sc_of(c)])
             continue
@@ -1106,7 +1128,7 @@ def api(method, n, d, ratio, seed, k, dist, sc=0):
             "sc": sc}
 
 
-def run_scaled(ctx, exe, calls, powers=None, timeout=600):
+def run_scaled(ctx, exe, calls, powers=None, timeout=None):
     """calls: case dicts for impl_line (their "sc" scales the data); results are scaled back"""
     if not calls:
         return []
@@ -1314,6 +1336,72 @@ def eval_E(ctx, exe, mexe, cases, st):
                               "for that subset (modulo column signs; simple spectrum): %s" % po)
 
 
+def gen_ER(rng):
+    c = gen_E(rng)
+    return dict(c, mode="ER", seeds=c["seeds"][:2])
+
+
+def eval_ER(ctx, exe, mexe, cases, st):
+    """Landmark MDS end to end with eigen_method = Randomized (the redsvd-like solver; its Gaussian test matrix is
+    drawn with std::rand(), seeded by the harness).  On Euclidean data of intrinsic dimension d = target_dimension
+    the centred landmark Gram matrix has rank exactly d, so the randomized range finder is exact up to rounding
+    and the Euclidean clause of the property must hold as for the dense solver.  Unit scale only: the solver's
+    ABSOLUTE cut-off `norm < 1e-4` (known finding F36, property C05) makes it give up on small-scale data."""
+    if not cases:
+        return
+    calls, meta = [], []
+    for c in cases:
+        dist = euclid_dist(c["pts"])
+        for seed in c["seeds"]:
+            calls.append(api("lmds:randomized", c["N"], c["d"], c["ratio"], seed, 0, dist, 0))
+            meta.append((c, seed, dist))
+    impl = run_scaled(ctx, exe, calls)
+    pd_lines, pd_idx = [], []
+    for (c, seed, dist), res in zip(meta, impl):
+        st.evals += 1
+        st.count("ER_lmds_randomized_d%d" % c["d"])
+        n, d = c["N"], c["d"]
+        rc = jsonable(dict(c, seeds=[seed]))
+        if res["exc"] == "eigendecomposition" and not res["crashed"]:
+            st.skip("ER_randomized_solver_gave_up_F36")
+            continue
+        perm, Y, problem = parse_api(res, n, d)
+        if perm is None:
+            if problem:
+                ctx.violation(rc, "Landmark MDS (eigen_method = Randomized): " + problem)
+            else:
+                ctx.mismatch(rc, "hook H1 did not report the permutation")
+            continue
+        if sorted(perm) != list(range(n)):
+            ctx.violation(rc, "oracle contract: tapkee::random_shuffle did not produce a permutation")
+            continue
+        lm = perm[:int(n * c["ratio"])]
+        if len(lm) < 2 or int_rank([[a - b for a, b in zip(c["pts"][x], c["pts"][lm[0]])] for x in lm[1:]]) != d:
+            st.skip("ER_landmarks_do_not_span")
+            continue
+        sub = [[dist[a][b] for b in lm] for a in lm]
+        ev = jacobi_eigenvalues(center_gram([[v * v for v in row] for row in sub]))
+        if ev[-d] < 1e-4 * ev[-1]:
+            st.skip("ER_ill_conditioned_landmark_gram")
+            continue
+        if problem:
+            ctx.violation(dict(rc, landmarks=lm), "Landmark MDS (eigen_method = Randomized) on Euclidean data of "
+                          "intrinsic dimension %d with spanning landmarks: %s" % (d, problem))
+            continue
+        dmax2 = max(v * v for row in dist for v in row)
+        tol = 1e-6 * dmax2 * (ev[-1] / ev[-d])
+        pd_lines.append("PD %d %d %s %s %s" % (n, d, tok(tol), " ".join(tok(v) for v in flat(Y)),
+                                                " ".join(tok(v) for v in flat(dist))))
+        pd_idx.append((rc, lm, tol))
+        st.nontrivial(["ER", c["pts"], lm])
+    for (rc, lm, tol), po in zip(pd_idx, run_model(ctx, mexe, pd_lines)):
+        if po.get("PD") != ["1"]:
+            ctx.violation(dict(rc, landmarks=lm), "Landmark MDS with eigen_method = Randomized does not reproduce the "
+                          "pairwise distances of Euclidean data of intrinsic dimension = target_dimension although the "
+                          "landmarks span it (rank-d Gram matrix: the randomized solver is exact up to rounding; "
+                          "tolerance %g on squared distances): %s" % (tol, po))
+
+
 def eval_E1(ctx, exe, mexe, cases, st):
     """ratio = 1 against the non-landmark counterpart, modulo column signs"""
     if not cases:
@@ -1474,7 +1562,7 @@ def eval_V(ctx, exe, mexe, cases, st):
     lines = [impl_line(api(c["method"], c["N"], c["d"], c["ratio"], c["seed"], min(c["N"] - 1, 4),
                            euclid_dist(c["pts"]))) for c in cases]
     # one process per case group is enough: a crash is attributed to its case by run_impl
-    impl = run_impl(ctx, exe, lines, timeout=300)
+    impl = run_impl(ctx, exe, lines)
     counts, flags = coq_counts(ctx, [(c["N"], c["ratio"]) for c in cases], [c["d"] for c in cases])
     for c, res, cq, ok in zip(cases, impl, counts, flags):
         st.evals += 1
@@ -1513,7 +1601,7 @@ def budgets(ctx, scale=1):
             "I": (16 if q else 200) * scale, "E": (12 if q else 120) * scale,
             "E1_lmds": (10 if q else 80) * scale, "E1_lisomap": (8 if q else 60) * scale,
             "V": (30 if q else 300) * scale, "E2": (8 if q else 80) * scale, "EI": (12 if q else 120) * scale,
-            "TM": (24 if q else 300) * scale, "IM": (8 if q else 100) * scale}
+            "TM": (24 if q else 300) * scale, "IM": (8 if q else 100) * scale, "ER": (8 if q else 80) * scale}
 
 
 def generate(ctx, rng, b):
@@ -1526,7 +1614,8 @@ def generate(ctx, rng, b):
              "E2": [gen_E2(rng) for _ in range(b["E2"])],
              "EI": [gen_EI(rng) for _ in range(b["EI"])],
              "TM": [gen_TM(rng) for _ in range(b["TM"])],
-             "IM": [gen_IM(rng) for _ in range(b["IM"])]}
+             "IM": [gen_IM(rng) for _ in range(b["IM"])],
+             "ER": [gen_ER(rng) for _ in range(b["ER"])]}
     # boundary cases aimed at the case splits of the proofs
     cases["S"] += [{"mode": "S", "N": 47, "ratio": 3.0 / 47, "reps": 2, "seed": 1},
                    {"mode": "S", "N": 3, "ratio": 1.0, "reps": 2, "seed": 2},
@@ -1543,13 +1632,14 @@ def generate(ctx, rng, b):
     return cases
 
 
-STREAMS = ("S", "R", "T", "TM", "I", "IM", "E", "E1", "V", "E2", "EI")
+STREAMS = ("S", "R", "T", "TM", "I", "IM", "E", "E1", "V", "E2", "EI", "ER")
 DATA_STREAMS = ("R", "T", "TM", "I", "IM", "E", "E1", "E2", "EI")
 
 
 def evaluate_all(ctx, exe, mexe, cases, st):
     for key, fn in (("S", eval_S), ("R", eval_R), ("T", eval_T), ("TM", eval_T), ("I", eval_I), ("IM", eval_I),
-                    ("E", eval_E), ("E1", eval_E1), ("V", eval_V), ("E2", eval_E2), ("EI", eval_EI)):
+                    ("E", eval_E), ("E1", eval_E1), ("V", eval_V), ("E2", eval_E2), ("EI", eval_EI),
+                    ("ER", eval_ER)):
         t0 = ctx.elapsed()
         fn(ctx, exe, mexe, cases.get(key, []), st)
         st.times[key] = round(st.times.get(key, 0) + ctx.elapsed() - t0, 1)
@@ -1648,6 +1738,8 @@ def say_scale(ctx):
     orig = ctx.violation
 
     def violation(case, why, signature=None):
+        if NOTRUN in str(why):
+            return False
         if isinstance(case, dict) and sc_of(case):
             why = "%s [data multiplied by 2^%d (case field sc), results multiplied back before judging]" % (
                 why, sc_of(case))
